@@ -201,6 +201,19 @@ pub fn run(ctx: &Ctx) -> (Spec, Report) {
             files.push(SrcFile { path: "src_root/aaa_first/src/lib.rs".into(), source: "#[typeshare]\npub struct BystanderA { pub z: u8 }\n".into() });
             files.push(SrcFile { path: "src_root/zzz_last/src/lib.rs".into(), source: "#[typeshare]\npub struct BystanderZ { pub z: u8 }\n".into() });
         }
+        // valid sibling files of the same crate: the victim's error must survive the merge of the crate's files in
+        // whatever order the collector receives them
+        let siblings = rng.chance(2, 3);
+        if siblings {
+            files.push(SrcFile { path: "src_root/victim_crate/src/aaa_sibling.rs".into(), source: "#[typeshare]\npub struct SiblingA { pub z: u8 }\n".into() });
+            files.push(SrcFile { path: "src_root/victim_crate/src/zzz_sibling.rs".into(), source: "#[typeshare]\npub struct SiblingZ { pub z: u8 }\n".into() });
+            files.push(SrcFile { path: "src_root/victim_crate/src/nested/deep.rs".into(), source: "#[typeshare]\npub enum SiblingDeep { A, B }\n".into() });
+        }
+        let order_env: Vec<(String, String)> = match rng.below(4) {
+            0 => vec![],
+            1 => vec![("TYPESHARE_VERIF_ORDER".to_string(), "rev".to_string())],
+            _ => vec![("TYPESHARE_VERIF_ORDER".to_string(), format!("seed:{}", rng.below(1000)))],
+        };
         write_tree(&root, &files);
         let out = if multi { root.join("out_dir") } else { root.join(format!("out.{}", lang.ext())) };
         let mut before: Vec<(String, Vec<u8>, i64, u64)> = vec![];
@@ -231,7 +244,7 @@ pub fn run(ctx: &Ctx) -> (Spec, Report) {
         let log = root.join("strace.log");
         let src_abs = root.join("src_root");
         let args = cli_args(lang, &cfg, multi, &out, &[src_abs.to_str().unwrap()]);
-        let o = run_bin(BinRun { cli: &cli, args: args.clone(), env: vec![], cwd: &root, strace: Some(log.clone()), wall_limit: Duration::from_secs(30) });
+        let o = run_bin(BinRun { cli: &cli, args: args.clone(), env: order_env.clone(), cwd: &root, strace: Some(log.clone()), wall_limit: Duration::from_secs(30) });
         rep.eval(1);
         rep.count("cli_runs_under_strace", 1);
         let events = parse_log(&log);
@@ -239,8 +252,9 @@ pub fn run(ctx: &Ctx) -> (Spec, Report) {
         let mods = modifications_under(&events, out.to_str().unwrap());
         let lname = lang.name();
         let mode = if multi { "multi-file" } else { "single-file" };
-        rep.cell(format!("cli|{}|{}|skip{}|{lname}|{mode}|pre={preexisting}", p.construct, p.position, p.skip));
-        let detail = |extra: serde_json::Value| json!({"construct": p.construct, "position": p.position, "depth": p.depth, "skip": p.skip, "language": lname, "mode": mode, "preexisting_output": preexisting, "args": args, "source": p.source, "exit": format!("{:?}", o.exit), "stderr": o.stderr.chars().take(800).collect::<String>(), "extra": extra});
+        rep.cell(format!("cli|{}|{}|skip{}|{lname}|{mode}|pre={preexisting}|siblings={siblings}", p.construct, p.position, p.skip));
+        rep.count(if siblings { "cli_runs_with_sibling_files" } else { "cli_runs_victim_alone_in_crate" }, 1);
+        let detail = |extra: serde_json::Value| json!({"construct": p.construct, "position": p.position, "depth": p.depth, "skip": p.skip, "language": lname, "mode": mode, "preexisting_output": preexisting, "sibling_files": siblings, "env": order_env, "args": args, "source": p.source, "exit": format!("{:?}", o.exit), "stderr": o.stderr.chars().take(800).collect::<String>(), "extra": extra});
         if o.panicked() || matches!(o.exit, Exit::Timeout(_) | Exit::Signal(_)) {
             rep.inconclusive("cli-panic-or-hang (reported by C07)", json!({"construct": p.construct, "exit": format!("{:?}", o.exit)}));
         } else if p.skip == 0 {
@@ -284,7 +298,7 @@ pub fn run(ctx: &Ctx) -> (Spec, Report) {
     let _ = std::fs::remove_dir_all(&scratch);
     let spec = Spec {
         level: "fault_enumeration",
-        rule: format!("a supported background program plus exactly one planted unsupported construct: {{u64, i64, usize, isize, tuple type}} x 7 positions (struct field, struct-variant field, newtype payload, generic argument, alias target, serialized_as on field / item) x wrapper chains of depth 0-5 (Vec, Option, HashMap key/value, Box, array, slice, reference, user generic) x {{no skip, serde(skip), typeshare(skip)}}, plus tuple structs / variants, serde(flatten) in 3 spellings and 2 positions, data enums without tag/content, tag/content on unit enums and 9 non-integer-literal consts: {} plants x 6 languages through the library (must be rejected with an error naming the file; skipped twins must succeed), and {n_cli} cells through the real binary under strace with and without a pre-existing output, single- and multi-file (no create/truncate/write/rename/unlink/mkdir event on the output location, bytes/mtime/inode unchanged); distinct = (construct, position, depth, skip, outcome)", all.len()),
+        rule: format!("a supported background program plus exactly one planted unsupported construct: {{u64, i64, usize, isize, tuple type}} x 7 positions (struct field, struct-variant field, newtype payload, generic argument, alias target, serialized_as on field / item) x wrapper chains of depth 0-5 (Vec, Option, HashMap key/value, Box, array, slice, reference, user generic) x {{no skip, serde(skip), typeshare(skip)}}, plus tuple structs / variants, serde(flatten) in 3 spellings and 2 positions, data enums without tag/content, tag/content on unit enums and 9 non-integer-literal consts: {} plants x 6 languages through the library (must be rejected with an error naming the file; skipped twins must succeed), and {n_cli} cells through the real binary under strace with and without a pre-existing output, single- and multi-file, alone or with valid sibling files of the same crate and bystander crates, delivered to the collector in arrival, reversed or seeded order (no create/truncate/write/rename/unlink/mkdir event on the output location, bytes/mtime/inode unchanged); distinct = (construct, position, depth, skip, outcome)", all.len()),
         assumptions: vec![
             "consts are planted only for backends with const support (TypeScript, Go, Python)".into(),
             "a run that panics or hangs is C07's finding and counted as inconclusive here".into(),
